@@ -27,6 +27,9 @@ S(a) == Range(a)                                   \* JSON array -> set
 DefOf(d) == Def(d.k, d.n, d.s, d.t)
 EntrySet(a) == {<<e.id, e.c, S(e.v)>> : e \in S(a)}
 
+SettingsOf(x) == [hooks |-> x.hooks, eps |-> x.eps, cfg |-> x.cfg]
+Opt(r, f, d) == IF f \in DOMAIN r THEN r[f] ELSE d
+
 JobOf(kind, j) ==
     CASE kind = "import" -> [phase |-> j.phase, batch |-> j.batch, idx |-> j.idx, next |-> j.next, file |-> j.file,
                              upd |-> S(j.upd), res |-> S(j.res), add |-> S(j.add), used |-> j.used]
@@ -45,7 +48,7 @@ Bind(r) ==
     /\ indexes' = st.indexes
     /\ use' = [f \in DOMAIN st.use |-> st.use[f]]
     /\ tags' = [t \in DOMAIN st.tags |-> [def |-> DefOf(st.tags[t].def), M |-> S(st.tags[t].M), U |-> S(st.tags[t].U),
-                                          convs |-> S(st.tags[t].convs), refBy |-> S(st.tags[t].refBy)]]
+                                          convs |-> S(st.tags[t].convs), refBy |-> S(st.tags[t].refBy), color |-> st.tags[t].color]]
     /\ flags' = [merge |-> st.flags.merge, tag |-> st.flags.tag, conv |-> st.flags.conv]
     /\ during' = [upd |-> S(st.during.upd), res |-> S(st.during.res), add |-> S(st.during.add), inv |-> S(st.during.inv)]
     /\ unmerge' = st.unmerge
@@ -55,6 +58,7 @@ Bind(r) ==
                      td |-> [t \in DOMAIN st.views[v].td |-> [M |-> S(st.views[v].td[t].M), U |-> S(st.views[v].td[t].U)]]]]
     /\ toConv' = [c \in DOMAIN st.toConv |-> S(st.toConv[c])]
     /\ cache' = [c \in DOMAIN st.cache |-> {<<e.id, S(e.v)>> : e \in S(st.cache[c])}]
+    /\ settings' = SettingsOf(st.settings)
 
 SayI(kind, r, what, info) ==
     PrintT("@@J" \o ToJson([kind |-> kind, what |-> what, tr |-> r.tr, sid |-> r.sid, n |-> r.n, a |-> r.ev.a, res |-> r.res, info |-> info]))
@@ -71,6 +75,26 @@ KindsOf(T) ==
 
 Picks == DOMAIN tags' \cup DOMAIN tags \cup {""}
 
+\* C12 conformance: the state a new Manager shows on the directory left by a kill is what the specification's Restart
+\* builds from the durable part of the killed process' state (r.pre), for one of the tag tables that can be on disk
+\* (the table of the last complete state file, or the one at the kill) and the loadable files in name order (r.order)
+TableOf(tt) == [t \in DOMAIN tt |-> [def |-> DefOf(tt[t].def), M |-> S(tt[t].M), convs |-> S(tt[t].convs), color |-> tt[t].color]]
+RestartOK(r) ==
+    LET pre == r.pre
+        F   == [f \in DOMAIN pre.files |-> EntrySet(pre.files[f])]
+        ca  == [c \in DOMAIN pre.cache |-> {<<e.id, S(e.v)>> : e \in S(pre.cache[c])}]
+        ord == IF "order" \in DOMAIN r THEN r.order ELSE <<>>
+        Ts  == {TableOf(pre.tags)} \cup {IF "expTags" \in DOMAIN r THEN TableOf(r.expTags) ELSE <<>>}      \* (an empty table is omitted by the harness)
+    IN \E T \in Ts : \E p \in DOMAIN T \cup {""} :
+        LET n == AfterRestart(F, ord, T, ca, S(pre.known), pre.queue, p) IN
+        /\ known' = n.known /\ queue' = <<>> /\ nextID' = n.nextID /\ allS' = n.allS
+        /\ indexes' = n.indexes /\ unmerge' = 0 /\ views' = <<>>
+        /\ tags' = n.bundle.tags /\ flags' = n.bundle.flags /\ jobs' = n.bundle.jobs /\ use' = n.bundle.use
+        /\ during' = n.bundle.during /\ toConv' = n.bundle.toConv
+        /\ cache' = ca
+        /\ \E St \in {SettingsOf(pre.settings)} \cup {IF "expSettings" \in DOMAIN r THEN SettingsOf(r.expSettings) ELSE SettingsOf(pre.settings)} :
+              settings' \in [hooks : {St.hooks}, cfg : {St.cfg}, eps : Perms(St.eps)]
+
 \* the specification's action for the logged event, evaluated on (bound pre-state, bound post-state)
 StepOK(r) ==
     LET ev == r.ev IN
@@ -84,7 +108,7 @@ StepOK(r) ==
            [] ev.a = "MergeDone"     -> MergeDone
            [] ev.a = "ConvCompute"   -> ConvCompute
            [] ev.a = "ConvDone"      -> \E p \in Picks : ConvDone(p)
-           [] ev.a = "AddTag"        -> IF r.res = "ok" THEN \E p \in Picks : AddTag(ev.name, DefOf(ev.def), p)
+           [] ev.a = "AddTag"        -> IF r.res = "ok" THEN \E p \in Picks : AddTag(ev.name, DefOf(ev.def), Opt(ev, "color", ""), p)
                                         ELSE Rejected /\ ~AddTagOK(ev.name, DefOf(ev.def))
            [] ev.a = "DelTag"        -> IF r.res = "ok" THEN DelTag(ev.name) ELSE Rejected /\ ~DelTagOK(ev.name)
            [] ev.a = "UpdQuery"      -> IF r.res = "ok" THEN \E p \in Picks : UpdQuery(ev.name, DefOf(ev.def), p)
@@ -97,6 +121,15 @@ StepOK(r) ==
            [] ev.a = "ViewRelease"   -> ViewRelease(ev.v)
            [] ev.a = "SetConverters" -> IF r.res = "ok" THEN SetConverters(ev.name, S(ev.convs))
                                         ELSE Rejected /\ ~SetConvOK(ev.name, S(ev.convs))
+           [] ev.a = "UpdName"       -> IF Opt(ev, "new", "") = "" THEN (r.res = "ok" /\ UNCHANGED vars) \/ (r.res = "err" /\ Rejected /\ ev.name \notin DOMAIN tags)
+                                        ELSE IF r.res = "ok" THEN UpdName(ev.name, ev.new) ELSE Rejected /\ ~UpdNameOK(ev.name, ev.new)
+           [] ev.a = "UpdColor"      -> IF r.res = "ok" THEN UpdColor(ev.name, Opt(ev, "color", "")) ELSE Rejected /\ ~UpdColorOK(ev.name)
+           [] ev.a = "AddHook"       -> IF r.res = "ok" THEN AddHook(ev.what) ELSE Rejected /\ ~AddHookOK(ev.what)
+           [] ev.a = "DelHook"       -> IF r.res = "ok" THEN DelHook(ev.what) ELSE Rejected /\ ~DelHookOK(ev.what)
+           [] ev.a = "AddEndpoint"   -> IF r.res = "ok" THEN AddEndpoint(ev.what) ELSE Rejected /\ ~AddEndpointOK(ev.what)
+           [] ev.a = "DelEndpoint"   -> IF r.res = "ok" THEN DelEndpoint(ev.what) ELSE Rejected /\ ~DelEndpointOK(ev.what)
+           [] ev.a = "SetConfig"     -> r.res = "ok" /\ SetConfig(ev.k = 1)
+           [] ev.a = "CrashRestart"  -> (r.res = "ok" /\ "pre" \in DOMAIN r) => RestartOK(r)     \* a kill in the middle of a schedule; the schedule goes on
            [] ev.a = "ConvReset"     -> ConvReset(ev.convs[1])
            [] ev.a = "ViewConvert"   -> ViewConvert(ev.v, ev.k, ev.convs[1])
            [] OTHER                  -> TRUE            \* events the model does not constrain (yet)
@@ -111,27 +144,16 @@ Applied(r) ==
           [] ev.a = "MarkAdd"  -> ev.name \in DOMAIN tags' /\ S(ev.ids) \subseteq tags'[ev.name].M
           [] ev.a = "MarkDel"  -> ev.name \in DOMAIN tags' /\ S(ev.ids) \cap tags'[ev.name].M = {}
           [] ev.a = "SetConverters" -> ev.name \in DOMAIN tags' /\ tags'[ev.name].convs = S(ev.convs)
+          [] ev.a = "UpdName"  -> Opt(ev, "new", "") # "" => (ev.new \in DOMAIN tags' /\ ev.name \notin DOMAIN tags' /\ DOMAIN tags' = (DOMAIN tags \ {ev.name}) \cup {ev.new})
+          [] ev.a = "UpdColor" -> Opt(ev, "color", "") # "" => (ev.name \in DOMAIN tags' /\ tags'[ev.name].color = ev.color)
+          [] ev.a = "AddHook"  -> ev.what \in Range(settings'.hooks)
+          [] ev.a = "DelHook"  -> ev.what \notin Range(settings'.hooks)
+          [] ev.a = "AddEndpoint" -> ev.what \in Range(settings'.eps)
+          [] ev.a = "DelEndpoint" -> ev.what \notin Range(settings'.eps)
+          [] ev.a = "SetConfig" -> settings'.cfg = (ev.k = 1)
           [] OTHER -> TRUE
 \* C11 (action property): a rejected call leaves everything as it was
-RejectIsNoop(r) == r.res = "err" => UNCHANGED <<tags, flags, jobs, use, during, toConv, cache, indexes, files, nextID, allS>>
-
-\* C12 conformance: the state a new Manager shows on the directory left by a kill is what the specification's Restart
-\* builds from the durable part of the killed process' state (r.pre), for one of the tag tables that can be on disk
-\* (the table of the last complete state file, or the one at the kill) and the loadable files in name order (r.order)
-TableOf(tt) == [t \in DOMAIN tt |-> [def |-> DefOf(tt[t].def), M |-> S(tt[t].M), convs |-> S(tt[t].convs)]]
-RestartOK(r) ==
-    LET pre == r.pre
-        F   == [f \in DOMAIN pre.files |-> EntrySet(pre.files[f])]
-        ca  == [c \in DOMAIN pre.cache |-> {<<e.id, S(e.v)>> : e \in S(pre.cache[c])}]
-        ord == IF "order" \in DOMAIN r THEN r.order ELSE <<>>
-        Ts  == {TableOf(pre.tags)} \cup {IF "expTags" \in DOMAIN r THEN TableOf(r.expTags) ELSE <<>>}      \* (an empty table is omitted by the harness)
-    IN \E T \in Ts : \E p \in DOMAIN T \cup {""} :
-        LET n == AfterRestart(F, ord, T, ca, S(pre.known), pre.queue, p) IN
-        /\ known' = n.known /\ queue' = <<>> /\ nextID' = n.nextID /\ allS' = n.allS
-        /\ indexes' = n.indexes /\ unmerge' = 0 /\ views' = <<>>
-        /\ tags' = n.bundle.tags /\ flags' = n.bundle.flags /\ jobs' = n.bundle.jobs /\ use' = n.bundle.use
-        /\ during' = n.bundle.during /\ toConv' = n.bundle.toConv
-        /\ cache' = ca
+RejectIsNoop(r) == r.res = "err" => UNCHANGED <<tags, flags, jobs, use, during, toConv, cache, indexes, files, nextID, allS, settings>>
 
 TraceInit == l = 0 /\ Init
 
@@ -171,6 +193,11 @@ TagsKeptFor(r, exp) ==
 TagsKept(r) ==
     \/ TagsKeptFor(r, IF HasField(r, "expTags") THEN r.expTags ELSE <<>>)
     \/ (HasField(r, "pre") /\ TagsKeptFor(r, r.pre.tags))
+SettingsKeptFor(x) == settings.hooks = x.hooks /\ settings.cfg = x.cfg /\ Range(settings.eps) = Range(x.eps) /\ Len(settings.eps) = Len(x.eps)
+SettingsKept(r) ==
+    \/ (HasField(r, "expSettings") /\ SettingsKeptFor(r.expSettings))
+    \/ (HasField(r, "pre") /\ SettingsKeptFor(r.pre.settings))
+    \/ (~HasField(r, "pre") /\ ~HasField(r, "expSettings"))
 StreamsKept(r) ==
     HasField(r, "preVis") =>
         \A e \in EntrySet(r.preVis) : \E e2 \in ObsVis(r) : e2[1] = e[1] /\ e2[2] = e[2] /\ e[3] \subseteq e2[3]
@@ -219,7 +246,7 @@ Props ==
             /\ (truth = [t \in DOMAIN tags |-> TruthOf(tags, vis, t)]) \/ Say("nonconf", r, "truth-differs-from-model")
        \* ---- C10
        /\ Chk(vis = Visible(indexes), r, "C10.FreshViewShowsIndexList")
-       /\ Chk(CompleteFor(indexes, Processed), r, "C10.ViewComplete")
+       /\ Chk(CompleteFor(indexes, Processed \ S(Opt(r, "lost", <<>>))), r, "C10.ViewComplete")
        /\ Chk(OneIdPerConn, r, "C08.OneIdPerConn")
        /\ Chk(\A v \in DOMAIN r.obs.views : r.obs.views[v].same, r, "C10.ViewStable")
        \* ---- C13
@@ -241,8 +268,9 @@ Props ==
        /\ Chk(ConvEventually, r, "C16.ConvEventually")
        /\ Chk(r.noViewConvert => DetachStops, r, "C16.DetachStops")
        \* ---- C12 (first row of a crash-restart trace: a new Manager was opened on a copy of the data directory)
-       /\ r.ev.a = "CrashRestart" =>
+       /\ (r.ev.a = "CrashRestart" /\ r.res = "ok") =>
             /\ Chk(TagsKept(r), r, "C12.TagsKept")
+            /\ Chk(SettingsKept(r), r, "C12.SettingsKept")
             /\ ChkI(StreamsKept(r), r, "C12.StreamsKept", IF Reordered(r) THEN "reordered" ELSE "")
             /\ (indexes = (IF HasField(r, "order") THEN r.order ELSE <<>>)) \/ Say("nonconf", r, "restart-order")
        /\ r.last => Chk(Settled, r, "C12.Converges")
